@@ -49,12 +49,15 @@ def handle1 (line : String) : String :=
   let o := parseOp line
   match o.hex? "dst", o.nat? "cap" with
   | some dst, some spare =>
-    if o.cmd == "open" || o.cmd == "flips" then
+    if o.cmd == "open" || o.cmd == "flips" || o.cmd == "adflips" then
       match o.nat? "x", o.hex? "key", o.hex? "nonce", o.hex? "ad", o.hex? "ct" with
       | some x, some key, some nonce, some ad, some ct =>
         if x > 1 || key.length != 32 then "bad-op" else
         let op := fun (key nonce ct ad : Bytes) => if x == 1 then xaeadOpen key nonce dst ct ad else aeadOpen key nonce dst ct ad
-        if o.cmd == "open" then
+        if o.cmd == "adflips" then   -- every single-bit flip of the additional data only (long ADs)
+          let acc := accepted "a" ad (fun a => isOk (op key nonce ct a))
+          s!"n={8 * ad.length} acc={joinIds acc} bad=-"
+        else if o.cmd == "open" then
           (if o.get? "place" == some "inplace" then showResInPlace dst.length ct (op key nonce ct ad)
            else showRes spare dst.length (op key nonce ct ad))
         else
